@@ -53,6 +53,41 @@ def branch_map(fn_node, var=None):
     return out
 
 
+def mode_pairing_rule(index, rep, rid):
+    """`-` is an ordinary character of labels and numbers except inside a position list: every function that turns
+    hyphens into tokens (set_hyphens_as_captured_delimiters(True)) turns them off again on every normal exit, with
+    the constant False or a value saved BEFORE it switched them on."""
+    n = 0
+    for f in index.functions.values():
+        if not f.module.name.startswith("dendropy.dataio"):
+            continue
+        calls = [c for c in calls_in(f.node) if call_name(c) == "set_hyphens_as_captured_delimiters" and c.args]
+        on = [c for c in calls if const_value(c.args[0], None) is True]
+        if not on or f.name == "set_hyphens_as_captured_delimiters":
+            continue
+        cfg = cfg_of(f)
+        for c in on:
+            n += 1
+            cn = node_of_ast(cfg, c)
+
+            def releases(x, cn=cn):
+                for r in node_calls(x):
+                    if call_name(r) == "set_hyphens_as_captured_delimiters" and r.args and r is not c:
+                        a = r.args[0]
+                        if const_value(a, None) is False:
+                            return True
+                        if isinstance(a, ast.Name):
+                            defs = [d for d in cfg.nodes if d.kind == "stmt" and isinstance(d.ast, ast.Assign) and norm(d.ast.targets[0]) == a.id]
+                            # saved before the switch: no definition of the saved value is reachable from the switch-on
+                            if defs and all(cfg.can_reach(cn, lambda y, d=d: y is d, follow_exc=False) is None for d in defs):
+                                return True
+                return False
+            ok, w = cfg.must_pass(cn, releases)
+            rep.check(ok, rid, f.qualname, "hyphens left as tokens on some exit", fn_where(f, c), "%s switches hyphens back to ordinary characters on every normal exit" % f.qualname,
+                      "%s switches the tokenizer to hyphens-as-tokens and has a normal exit that does not switch it back (or restores a value it read only AFTER switching): for the rest of the file `-` is a token of its own, so a later hyphenated label, negative number or exponent (`1.5e-05`) is split and the document read in full differs from the tree-only routes or fails to parse" % f.qualname)
+    return n
+
+
 def run(index, rep, tier):
     rep.rule("R13.1", "source dispatch converges: file/path/data/url each reach _parse_and_create_from_stream / _parse_and_add_from_stream with the same schema/kwargs and a stream built from the source without transformation")
     rep.rule("R13.2", "one tree-statement parser: in the Newick/NEXUS readers and yielders nodes are created from tokens only in NewickReader._parse_tree_node_description, reached through NewickReader._parse_tree_statement")
@@ -266,6 +301,11 @@ def run(index, rep, tier):
                       "TreeList.read forwards %s unchanged to the routine TreeList.get uses" % off,
                       "TreeList._parse_and_add_from_stream %s before delegating to _parse_and_create_from_stream: the callee tells 'offset given' from 'offset omitted' by `is None` (an explicit tree_offset selects the first collection only), so read(..., %s=0) appends a different set of trees from get(..., %s=0) on a source with several collections"
                       % ("rebinds `%s` (`%s`)" % (off, norm_stmt(rebound[0])[:60]) if rebound else "does not pass `%s` as it was given" % off, off, off))
+
+    # ---- R13.6
+    with rep.section("R13.6"):
+        rep.rule("R13.6", "tokenizer modes do not leak: a reader function that switches hyphens to tokens switches them back on every normal exit (otherwise the whole-document route tokenizes the rest of the file differently from the tree-only routes)")
+        rep.floor("R13.6", "functions switching hyphens to tokens", 1, mode_pairing_rule(index, rep, "R13.6"))
 
     # ---- R13.5
     with rep.section("R13.5"):
